@@ -34,7 +34,7 @@ const OBSERVED: [(&str, &[&str]); 6] = [
 ];
 
 /// pool of other files: (id, text, key registered, kind)
-const POOL: [(&str, &str, &str, &str); 20] = [
+const POOL: [(&str, &str, &str, &str); 22] = [
     ("b-itf-1", "package p; interface B { }", "p.B", "interface"),
     ("b-itf-2", "package p; import o.Obs; interface B { void x(in Obs o); const int K = 1; }", "p.B", "interface"),
     ("b-par-1", "package p; parcelable B { }", "p.B", "parcelable"),
@@ -54,6 +54,8 @@ const POOL: [(&str, &str, &str, &str); 20] = [
     ("d-unused", "package r; enum D { A }", "r.D", "enum"),
     ("b-in-subpackage", "package p.sub; enum B { A }", "p.sub.B", "enum"),
     ("b-par-recovered-error", "package p; parcelable B { int ; int x = ; String s; }", "p.B", "parcelable"),
+    ("imports-thing", "package w2; import zz.Thing; import zz.Other; import x.B; parcelable W2 { Thing t; Other o; B b; }", "w2.W2", "parcelable"),
+    ("declares-qualified", "package v2; @A() parcelable r . D; parcelable zz.Other; parcelable p.B; parcelable q.C; interface V2 { }", "v2.V2", "interface"),
     ("declares-thing", "package v; parcelable Thing; parcelable Other; parcelable B; interface V { void f(in Thing t, in Other o, in B b); }", "v.V", "interface"),
 ];
 
